@@ -82,6 +82,11 @@ func genC12(r *Rng, tier string, idx int) *Program {
 			if lifecycle && r.Chance(0.07) {
 				op = Op{Kind: "store_close"} // shutdown while other operations are still running
 			}
+			if op.Kind == "unregister" || op.Kind == "disable" || op.Kind == "store_close" {
+				// the control server calls these with a deadline: it may expire while
+				// the call waits for an operation that holds the executor
+				op.Ms = []int64{0, 0, 1, 1000, 30000}[r.Intn(5)]
+			}
 			op.Level = tk
 			p.Ops = append(p.Ops, op)
 		}
@@ -662,6 +667,12 @@ func openFDs(dbPath string) []string {
 // litestream (the code under test) and the task's own log.
 func concExec(ctx context.Context, e *Env, store *litestream.Store, levels litestream.CompactionLevels, op *Op, extra chan *litestream.DB, lg *concTaskLog) string {
 	db := store.FindDB(e.DBPath)
+	if op.Ms > 0 && (op.Kind == "unregister" || op.Kind == "disable" || op.Kind == "store_close") {
+		var cancel context.CancelFunc
+		ctx, cancel = context.WithTimeout(ctx, time.Duration(op.Ms)*time.Millisecond)
+		defer cancel()
+		lg.probes["lifecycle_calls_with_deadline"]++
+	}
 	switch op.Kind {
 	case "register":
 		nd := litestream.NewDB(e.DBPath)
